@@ -2981,3 +2981,83 @@ func c07R12(c *Ctx, r *Report) {
 	r.Check(ok, rule, fn.Name(), "a borrow through a reference takes over that reference's loans", c.pos(fn.Decl.Pos()),
 		"a reference initialised with `&'r.X` records no loan because its base is a reference: after r's last use `let a: &'i32 = &'r.X; p.X = 5; a = 7;` is accepted and p.X is written through a while p is assigned directly")
 }
+
+// ---- C07.R13: a mutable loan that is handed on rests in its first holder ---------------------------------------
+
+func init() {
+	lateInits = append(lateInits, func() {
+		props["C07"].Quick = append(props["C07"].Quick, c07R13)
+		props["C07"].Explanation += " (R13) when the loans of a mutable reference are handed on to another reference variable (`let r2: &'T = f(r)`), bindRefFromExpr records it in a map of the checker, and both the read and the write-target check of a reference variable consult that map and report a use of the first holder."
+	})
+}
+
+func c07R13(c *Ctx, r *Report) {
+	const rule = "C07.R13"
+	r.Describe(rule, "hir/analysis: bindRefFromExpr, in the loop over b.bindings[sym] that calls addBinding, assigns b.<M>[sym] under a test of held.mutable; checkRead and checkWriteTarget call a function that indexes b.<M> and reaches reportBorrowError")
+	bind := c.LookupFn(pkgHIRAn, "(*borrowChecker).bindRefFromExpr")
+	rd := c.LookupFn(pkgHIRAn, "(*borrowChecker).checkRead")
+	wt := c.LookupFn(pkgHIRAn, "(*borrowChecker).checkWriteTarget")
+	rep := c.LookupFn(pkgHIRAn, "(*borrowChecker).reportBorrowError")
+	ab := c.LookupFn(pkgHIRAn, "(*borrowChecker).addBinding")
+	if !r.Anchor(rule, bind != nil && rd != nil && wt != nil && rep != nil && ab != nil, "hir/analysis bindRefFromExpr / checkRead / checkWriteTarget / reportBorrowError / addBinding") {
+		return
+	}
+	info := bind.Info()
+	field := ""
+	ast.Inspect(bind.Decl.Body, func(x ast.Node) bool {
+		rs, ok := x.(*ast.RangeStmt)
+		if !ok || nodeCalls(info, rs.Body, ab.Obj) == nil {
+			return true
+		}
+		ast.Inspect(rs.Body, func(y ast.Node) bool {
+			ifs, ok := y.(*ast.IfStmt)
+			if !ok || !strings.Contains(exprStr(ifs.Cond), ".mutable") {
+				return true
+			}
+			ast.Inspect(ifs.Body, func(z ast.Node) bool {
+				if as, ok := z.(*ast.AssignStmt); ok && len(as.Lhs) == 1 {
+					if ix, ok := ast.Unparen(as.Lhs[0]).(*ast.IndexExpr); ok {
+						if sel, ok := ast.Unparen(ix.X).(*ast.SelectorExpr); ok && exprStr(sel.X) == "b" {
+							field = sel.Sel.Name
+						}
+					}
+				}
+				return true
+			})
+			return true
+		})
+		return true
+	})
+	r.Check(field != "", rule, bind.Name(), "a mutable loan handed on is recorded", c.pos(bind.Decl.Pos()),
+		"the loans of a mutable reference are copied to a second reference variable and nothing records it: `let r2: &'i32 = same(r); r = 2; r2 = 3; r += 10;` is accepted — two live mutable references to x")
+	if field == "" {
+		return
+	}
+	consults := func(fn *Fn) bool {
+		finfo := fn.Info()
+		for _, cl := range callsIn(fn.Decl.Body, false) {
+			f := callee(finfo, cl)
+			hf := c.FnOf(f)
+			if f == nil || hf == nil || hf.Decl == nil || hf.Decl.Body == nil {
+				continue
+			}
+			reads := false
+			ast.Inspect(hf.Decl.Body, func(x ast.Node) bool {
+				if ix, ok := x.(*ast.IndexExpr); ok {
+					if sel, ok := ast.Unparen(ix.X).(*ast.SelectorExpr); ok && sel.Sel.Name == field {
+						reads = true
+					}
+				}
+				return true
+			})
+			if reads && nodeCalls(hf.Info(), hf.Decl.Body, rep.Obj) != nil {
+				return true
+			}
+		}
+		return false
+	}
+	r.Check(consults(rd), rule, rd.Name(), "reading a reference variable consults "+field, c.pos(rd.Decl.Pos()),
+		"a reference variable whose mutable loan was handed on can still be read: two usable references to one place, one of them mutable")
+	r.Check(consults(wt), rule, wt.Name(), "writing through a reference variable consults "+field, c.pos(wt.Decl.Pos()),
+		"a reference variable whose mutable loan was handed on can still be written through: `r = 2; r2 = 3;` both reach x")
+}
